@@ -338,4 +338,302 @@ theorem poolInv_run (cfg : Cfg) (hs : 0 < cfg.size) (progs : List (List Cmd)) (s
     PoolInv cfg (run cfg (init progs) sched) :=
   run_inv cfg (PoolInv cfg) (fun s tid h => poolInv_step cfg hs s tid h) _ sched (poolInv_init cfg progs)
 
+def pendO : Option Nat → Nat
+  | none => 0
+  | some r => r
+
+/-- packets taken out of the input buffer of `add_photons` but not yet stored in a pool buffer -/
+def pendPC : PC → Nat
+  | .getCheck r => pendO r
+  | .getInc r => pendO r
+  | .getCas _ r => pendO r
+  | .getCount _ r => pendO r
+  | .getMax _ _ r => pendO r
+  | .getTotal _ r => pendO r
+  | .apPlace _ r => r
+  | .crashed r => r
+  | _ => 0
+
+def pend (th : Thread) : Nat := pendPC th.pc
+
+/-- packets injected = packets in buffers + in flight + discarded by free_buffer + lost -/
+def PhotonInv (cfg : Cfg) (s : State) : Prop :=
+  sumN s.mem.count cfg.size + sumT pend s.threads + sumT (·.disc) s.threads + sumT (·.lost) s.threads
+    = sumT (·.inj) s.threads
+
+theorem photon_dispatch (th : Thread) (c : Cmd) :
+    pendPC (dispatch th c).pc = 0 ∧ (dispatch th c).disc = th.disc ∧ (dispatch th c).lost = th.lost ∧
+    (dispatch th c).inj = th.inj := by
+  cases c <;> simp only [dispatch, ret] <;> (try split) <;> simp [pendPC, pendO]
+
+theorem exec_photon (cfg : Cfg) (m : Mem) (th : Thread) (hwf : ThreadWf cfg th) :
+    sumN (exec cfg m th).1.count cfg.size + pend (exec cfg m th).2 + (exec cfg m th).2.disc
+        + (exec cfg m th).2.lost + th.inj
+      = sumN m.count cfg.size + pend th + th.disc + th.lost + (exec cfg m th).2.inj := by
+  unfold exec
+  cases hpc : th.pc
+  case idle =>
+    simp only
+    split
+    · simp
+    · rename_i c0 rest hp
+      have := photon_dispatch { th with pc := .idle, prog := rest } c0
+      obtain ⟨h1, h2, h3, h4⟩ := this
+      have h0 : pendPC PC.idle = 0 := rfl
+      simp only [pend, h1, h2, h3, h4]
+      rw [hpc, h0]
+  case apFill tgt n =>
+    have hj : tgt < cfg.size := hwf.2.1 tgt (by simp [hpc, pcSlot])
+    have := sumN_upd m.count tgt cfg.size (m.count tgt + min n (cfg.cap - m.count tgt)) hj
+    simp only
+    split <;> simp only [pend, pendPC, pendO, ret, hpc] <;> omega
+  case apPlace i r =>
+    have hj : i < cfg.size := hwf.2.1 i (by simp [hpc, pcSlot])
+    have := sumN_upd m.count i cfg.size (m.count i + r) hj
+    simp only [pend, pendPC, ret, hpc]; omega
+  case freeReset i =>
+    have hj : i < cfg.size := hwf.2.1 i (by simp [hpc, pcSlot])
+    have := sumN_upd m.count i cfg.size 0 hj
+    simp only [pend, pendPC, hpc]; omega
+  case getTotal j r => cases r <;> simp [pend, pendPC, pendO, getDone, ret, hpc]
+  case getCheck r => cases r <;> simp only <;> (repeat' split) <;> simp [pend, pendPC, pendO, ret, hpc]
+  case tlStart c t => cases c <;> simp only <;> (repeat' split) <;> simp [pend, pendPC, hpc, ret, tlSucc, tlFail]
+  case tl0 c t => cases c <;> simp only <;> (repeat' split) <;> simp [pend, pendPC, hpc, ret, tlSucc, tlFail]
+  case tl1 c t => cases c <;> simp only <;> (repeat' split) <;> simp [pend, pendPC, hpc, ret, tlSucc, tlFail]
+  case tlBack c t => cases c <;> simp only <;> (repeat' split) <;> simp [pend, pendPC, hpc, ret, tlSucc, tlFail]
+  all_goals
+    first
+    | (simp only; done)
+    | (simp only; (repeat' split) <;> simp [pend, pendPC, pendO, hpc, ret] <;> done)
+
+theorem photonInv_step (cfg : Cfg) (s : State) (tid : Nat) (hw : SlotWf cfg s) (h : PhotonInv cfg s) :
+    PhotonInv cfg (step cfg s tid) := by
+  cases hth : s.threads[tid]? with
+  | none => rw [step_none cfg s tid hth]; exact h
+  | some th =>
+    rw [step_some cfg s tid th hth]
+    have h1 := sumT_set pend s.threads tid th (exec cfg s.mem th).2 hth
+    have h2 := sumT_set (·.disc) s.threads tid th (exec cfg s.mem th).2 hth
+    have h3 := sumT_set (·.lost) s.threads tid th (exec cfg s.mem th).2 hth
+    have h4 := sumT_set (·.inj) s.threads tid th (exec cfg s.mem th).2 hth
+    have hloc := exec_photon cfg s.mem th (hw th (List.mem_of_getElem? hth))
+    unfold PhotonInv at *
+    simp only at *
+    omega
+
+theorem photonInv_run (cfg : Cfg) (hs : 0 < cfg.size) (progs : List (List Cmd)) (sched : List Nat) :
+    PhotonInv cfg (run cfg (init progs) sched) := by
+  have := run_inv cfg (fun s => SlotWf cfg s ∧ PhotonInv cfg s)
+    (fun s tid h => ⟨slotWf_step cfg hs s tid h.1, photonInv_step cfg s tid h.1 h.2⟩) (init progs) sched
+    ⟨slotWf_init cfg progs, ?_⟩
+  · exact this.2
+  · have hc : ∀ n, sumN (fun _ => 0) n = 0 := by
+      intro n; induction n with
+      | zero => rfl
+      | succ n ih => simp [sumN, ih]
+    unfold PhotonInv
+    simp only [init]
+    rw [sumT_eq_zero, sumT_eq_zero, sumT_eq_zero, sumT_eq_zero]
+    · simp [hc]
+    all_goals
+      intro th hth
+      simp only [List.mem_map] at hth
+      obtain ⟨p, _, rfl⟩ := hth
+      simp [pend, pendPC]
+
+/-- every residue is reached from the cursor within `size` increments -/
+theorem exists_offset (cur size j : Nat) (hj : j < size) : ∃ d, d < size ∧ (cur + d) % size = j := by
+  have hs : 0 < size := by omega
+  have hc : cur % size < size := Nat.mod_lt _ hs
+  have hdm := Nat.div_add_mod cur size
+  by_cases h : cur % size ≤ j
+  · refine ⟨j - cur % size, by omega, ?_⟩
+    have : cur + (j - cur % size) = size * (cur / size) + j := by omega
+    rw [this, Nat.mul_add_mod, Nat.mod_eq_of_lt hj]
+  · refine ⟨size - cur % size + j, by omega, ?_⟩
+    have : cur + (size - cur % size + j) = size * (cur / size + 1) + j := by
+      rw [Nat.mul_add, Nat.mul_one]; omega
+    rw [this, Nat.mul_add_mod, Nat.mod_eq_of_lt hj]
+
+/-- solo progress of `get_free_element`'s search loop: if the slot `d` positions after the
+cursor (modulo the size — the cursor may have wrapped any number of times) is free, the thread,
+running alone, obtains a free slot within `2 (d+1)` transitions -/
+theorem get_progress_aux (cfg : Cfg) (tid : Nat) (r : Option Nat) (d : Nat) :
+    ∀ (s : State) (th : Thread), s.threads[tid]? = some th → th.pc = .getInc r →
+      s.mem.flags ((s.mem.cur + d) % cfg.size) = false →
+      ∃ n i th', n ≤ 2 * (d + 1) ∧
+        (run cfg s (List.replicate n tid)).threads[tid]? = some th' ∧ th'.pc = .getCount i r ∧
+        s.mem.flags i = false ∧ (run cfg s (List.replicate n tid)).mem.flags i = true ∧
+        (∃ e, e ≤ d ∧ i = (s.mem.cur + e) % cfg.size) := by
+  induction d with
+  | zero =>
+    intro s th hth hpc hfree
+    have h1 := step_at cfg s tid th hth
+    have e1 : exec cfg s.mem th = ({ s.mem with cur := s.mem.cur + 1 }, { th with pc := .getCas (s.mem.cur % cfg.size) r }) := by
+      unfold exec; rw [hpc]
+    rw [e1] at h1
+    have h2 := step_at cfg (step cfg s tid) tid _ h1.1
+    simp only [Nat.add_zero] at hfree
+    have e2 : exec cfg (step cfg s tid).mem { th with pc := .getCas (s.mem.cur % cfg.size) r }
+        = ({ (step cfg s tid).mem with flags := upd (step cfg s tid).mem.flags (s.mem.cur % cfg.size) true },
+           { th with pc := .getCount (s.mem.cur % cfg.size) r }) := by
+      unfold exec; simp [h1.2, hfree]
+    rw [e2] at h2
+    refine ⟨2, s.mem.cur % cfg.size, _, by omega, h2.1, rfl, hfree, ?_, ⟨0, by omega, rfl⟩⟩
+    show (step cfg (step cfg s tid) tid).mem.flags _ = true
+    rw [h2.2]; simp
+  | succ d ih =>
+    intro s th hth hpc hfree
+    have h1 := step_at cfg s tid th hth
+    have e1 : exec cfg s.mem th = ({ s.mem with cur := s.mem.cur + 1 }, { th with pc := .getCas (s.mem.cur % cfg.size) r }) := by
+      unfold exec; rw [hpc]
+    rw [e1] at h1
+    have h2 := step_at cfg (step cfg s tid) tid _ h1.1
+    cases hf : s.mem.flags (s.mem.cur % cfg.size)
+    · have e2 : exec cfg (step cfg s tid).mem { th with pc := .getCas (s.mem.cur % cfg.size) r }
+          = ({ (step cfg s tid).mem with flags := upd (step cfg s tid).mem.flags (s.mem.cur % cfg.size) true },
+             { th with pc := .getCount (s.mem.cur % cfg.size) r }) := by
+        unfold exec; simp [h1.2, hf]
+      rw [e2] at h2
+      refine ⟨2, s.mem.cur % cfg.size, _, by omega, h2.1, rfl, hf, ?_, ⟨0, by omega, rfl⟩⟩
+      show (step cfg (step cfg s tid) tid).mem.flags _ = true
+      rw [h2.2]; simp
+    · have e2 : exec cfg (step cfg s tid).mem { th with pc := .getCas (s.mem.cur % cfg.size) r }
+          = ((step cfg s tid).mem, { th with pc := .getInc r }) := by
+        unfold exec; simp [h1.2, hf]
+      rw [e2] at h2
+      have hm : (step cfg (step cfg s tid) tid).mem = { s.mem with cur := s.mem.cur + 1 } := by
+        rw [h2.2, h1.2]
+      have hfree' : (step cfg (step cfg s tid) tid).mem.flags
+          (((step cfg (step cfg s tid) tid).mem.cur + d) % cfg.size) = false := by
+        rw [hm]; simp only
+        have : s.mem.cur + 1 + d = s.mem.cur + (d + 1) := by omega
+        rw [this]; exact hfree
+      obtain ⟨n, i, th', hn, hrun, hpc', hfi, hfi', e, he, hei⟩ := ih _ _ h2.1 rfl hfree'
+      refine ⟨n + 2, i, th', by omega, ?_, hpc', ?_, ?_, ⟨e + 1, by omega, ?_⟩⟩
+      · exact hrun
+      · rw [hm] at hfi; exact hfi
+      · exact hfi'
+      · rw [hm] at hei; simp only at hei
+        have : s.mem.cur + (e + 1) = s.mem.cur + 1 + e := by omega
+        rw [this]; exact hei
+
+theorem sumN_add (f g : Nat → Nat) (n : Nat) : sumN (fun i => f i + g i) n = sumN f n + sumN g n := by
+  induction n with
+  | zero => rfl
+  | succ n ih => simp only [sumN, ih]; omega
+
+theorem sumN_zero (n : Nat) : sumN (fun _ => 0) n = 0 := by
+  induction n with
+  | zero => rfl
+  | succ n ih => simp [sumN, ih]
+
+theorem sumN_congr (f g : Nat → Nat) (n : Nat) (h : ∀ i, i < n → f i = g i) : sumN f n = sumN g n := by
+  induction n with
+  | zero => rfl
+  | succ n ih => simp only [sumN]; rw [ih (fun i hi => h i (by omega)), h n (by omega)]
+
+theorem le_sumN (f : Nat → Nat) (n j : Nat) (h : j < n) : f j ≤ sumN f n := by
+  induction n with
+  | zero => omega
+  | succ n ih =>
+    simp only [sumN]
+    by_cases hj : j = n
+    · subst hj; omega
+    · have := ih (by omega); omega
+
+/-- exchange of the two finite sums -/
+theorem sumN_sumT (g : Nat → Thread → Nat) (l : List Thread) (n : Nat) :
+    sumN (fun i => sumT (g i) l) n = sumT (fun th => sumN (fun i => g i th) n) l := by
+  induction l with
+  | nil => simp [sumN_zero]
+  | cons a l ih => simp only [sumT_cons, sumN_add, ih]
+
+theorem cnt_eq_sumN (f : Nat → Bool) (n : Nat) : cnt f n = sumN (fun i => (f i).toNat) n := by
+  induction n with
+  | zero => rfl
+  | succ n ih => simp only [cnt, sumN, ih]
+
+theorem sumN_ind (a n : Nat) (h : a < n) : sumN (fun i => ind (i = a)) n = 1 := by
+  induction n with
+  | zero => omega
+  | succ n ih =>
+    simp only [sumN]
+    by_cases ha : a = n
+    · subst ha
+      have : sumN (fun i => ind (i = a)) a = 0 := by
+        rw [sumN_congr _ (fun _ => 0) a (fun i hi => by simp [ind]; omega), sumN_zero]
+      rw [this]; simp [ind]
+    · have := ih (by omega)
+      have hn : ¬ n = a := fun h => ha h.symm
+      rw [this]; simp [ind, hn]
+
+theorem sumN_count (l : List Nat) (n : Nat) (h : ∀ x ∈ l, x < n) : sumN (fun i => l.count i) n = l.length := by
+  induction l with
+  | nil => simp [sumN_zero]
+  | cons a l ih =>
+    have := ih (fun x hx => h x (by simp [hx]))
+    have ha := sumN_ind a n (h a (by simp))
+    rw [sumN_congr _ (fun i => l.count i + ind (i = a)) n (fun i _ => count_cons_ind l a i), sumN_add, this, ha]
+    simp
+
+/-- in every reachable state the number of set flags is the total number of holds -/
+theorem cnt_eq_holds (s : State) (n : Nat) (h : SlotInv s) :
+    cnt s.mem.flags n = sumT (fun th => sumN (fun i => holdS i th) n) s.threads := by
+  rw [cnt_eq_sumN, ← sumN_sumT]
+  exact sumN_congr _ _ n (fun i _ => (h i).symm)
+
+theorem sumT_le (f g : Thread → Nat) (l : List Thread) (h : ∀ th ∈ l, f th ≤ g th) : sumT f l ≤ sumT g l := by
+  induction l with
+  | nil => simp
+  | cons a l ih =>
+    have := ih (fun th hth => h th (by simp [hth]))
+    have := h a (by simp)
+    simp only [sumT_cons]; omega
+
+theorem incP_le_holds (cfg : Cfg) (th : Thread) (hwf : ThreadWf cfg th) :
+    incP th ≤ sumN (fun i => holdS i th) cfg.size := by
+  unfold incP
+  cases hpc : th.pc <;> simp only [incPC, Nat.zero_le]
+  case getCount j r =>
+    have hj : j < cfg.size := hwf.2.1 j (by simp [hpc, pcSlot])
+    have := le_sumN (fun i => holdS i th) cfg.size j hj
+    have hh : holdS j th ≥ 1 := by simp [holdS, hpc, pcHoldS, ind]
+    omega
+
+/-- `_number_taken` never goes below zero (so the unsigned counter of the C++ never wraps) -/
+theorem taken_nonneg (cfg : Cfg) (s : State) (h : PoolInv cfg s) : 0 ≤ s.mem.taken := by
+  obtain ⟨h1, h2, h3⟩ := h
+  have hc := cnt_eq_holds s cfg.size h1
+  have hle := sumT_le incP (fun th => sumN (fun i => holdS i th) cfg.size) s.threads
+    (fun th hth => incP_le_holds cfg th (h2 th hth))
+  unfold CountInv at h3
+  omega
+
+/-- when every thread is idle, `_number_taken` = total number of slots in the callers' hands -/
+theorem taken_eq_owned (cfg : Cfg) (s : State) (h : PoolInv cfg s) (hidle : ∀ th ∈ s.threads, th.pc = .idle) :
+    s.mem.taken = (sumT (fun th => th.owned.length) s.threads : Int) := by
+  obtain ⟨h1, h2, h3⟩ := h
+  have hc := cnt_eq_holds s cfg.size h1
+  have e : sumT (fun th => sumN (fun i => holdS i th) cfg.size) s.threads = sumT (fun th => th.owned.length) s.threads := by
+    have : ∀ l : List Thread, (∀ th ∈ l, th ∈ s.threads) →
+        sumT (fun th => sumN (fun i => holdS i th) cfg.size) l = sumT (fun th => th.owned.length) l := by
+      intro l
+      induction l with
+      | nil => intro _; rfl
+      | cons a l ih =>
+        intro hl
+        have ha := hl a (by simp)
+        have hco := sumN_count a.owned cfg.size (h2 a ha).1
+        have : sumN (fun i => holdS i a) cfg.size = a.owned.length := by
+          rw [← hco]
+          exact sumN_congr _ _ _ (fun i _ => by simp [holdS, hidle a ha, pcHoldS])
+        simp only [sumT_cons, this, ih (fun th hth => hl th (by simp [hth]))]
+    exact this s.threads (fun _ h => h)
+  unfold CountInv at h3
+  rw [sumT_eq_zero incP _ (fun th hth => by simp [incP, incPC, hidle th hth]),
+      sumT_eq_zero decP _ (fun th hth => by simp [decP, decPC, hidle th hth])] at h3
+  rw [hc, e] at h3
+  simpa using h3
+
 end CMacVerif.Atomics
